@@ -18,7 +18,7 @@ import vlib
 META = {
     "category": "proof",
     "text": "Coq theorems (Gc/Props_C05.v, closed under the global context) over an executable model of sst/src/gc.rs (policy AST, the stateful boxed determiners, GarbageCollector::next with key tracking, tombstone buffer and two-step return) and of the loop of lsmtk perform_garbage_collection: for every policy of the language (versions/ttl/any/all nesting), every clock value, every input with adjacent equal keys of any length the collector returns exactly what a cursor-free specification of the policy retains; on strictly sorted merged inputs the lock-step walk never goes out of sync, writes exactly the specified entries, discard is the setsum of exactly the dropped ones and input = output + discard; with versions = N (and with every policy that retains a sole newest version, as lsmtk evaluates it) every key reads after a GC as before — a deciding value is itself kept, a deciding tombstone goes only with everything below it or is replaced by the oldest tombstone of its run; GC only at the last level.  Tied to the code by 4-way differential runs (real Rust vs extracted model vs extracted spec vs independent Python semantics), a transcription of the walk over real SST files, and real lsmtk stores single-stepped through garbage collections with before/after multiset comparison of complete dumps.",
-    "note": "Multiset conservation through apply_compaction / the multi-builder (the non-GC half) is proved in area Lsm, here it is only observed on real runs.  Trusted: Coq kernel; extraction + ocaml/gc driver; harness c05/lsm; the nom parser is compared with a reference parser on generated strings, not proved; cursors are modelled as lists (I/O errors of next() outside the model); (key,timestamp) pairs of a compaction's inputs are assumed distinct for the walk theorems; SHA3-256 is an arbitrary function to 32 bytes.  Known classes: K-retain-nothing — a policy that does not retain even a sole newest version (e.g. `any()`) makes a GC drop current values, by the letter of the policy; K1-inputs-not-closed — the lsmtk selector can emit a top-level compaction that skips an overlapping file of a level in between (F16/K1), the GC then drops a tombstone while a value it shadows survives outside the inputs and the deleted key reads again (9-write reproduction in corpus/C05/30_lsm_k1_gc_resurrects.json); the tree-level theorem has exactly the missing closure as its hypothesis.",
+    "note": "Multiset conservation through apply_compaction / the multi-builder (the non-GC half) is proved in area Lsm, here it is only observed on real runs.  Trusted: Coq kernel; extraction + ocaml/gc driver; harness c05/lsm; the nom parser is compared with a reference parser on generated strings, not proved; cursors are modelled as lists (I/O errors of next() outside the model); (key,timestamp) pairs of a compaction's inputs are assumed distinct for the walk theorems; SHA3-256 is an arbitrary function to 32 bytes.  Known classes: K-retain-nothing — a policy that does not retain even a sole newest version (e.g. `any()`) makes a GC drop current values, by the letter of the policy; K1-inputs-not-closed (repaired by fix 764f777, a reappearance is a violation) — the lsmtk selector could emit a top-level compaction that skips an overlapping file of a level in between (F16/K1), the GC then drops a tombstone while a value it shadows survives outside the inputs and the deleted key reads again (9-write reproduction in corpus/C05/30_lsm_k1_gc_resurrects.json); the tree-level theorem has exactly the missing closure as its hypothesis.",
 }
 
 PROPS = "theories/Gc/Props_C05.v"
@@ -504,7 +504,10 @@ def lsm_eval(chk, lsmbin, idx, pol, opts, ops, stats, model_cases):
                             if not keeps_newest(pol):
                                 chk.known(KNOWN_CLASS, "policy `%s` does not retain a key's sole newest version: a real lsmtk GC dropped current values" % pol_display(pol))
                                 stats["lsm_known_hits"] += 1
-                            elif k1 and len(inputs) > 1 and up == 15:
+                            elif k1 and len(inputs) > 1 and up == 15 and any(
+                                    kf[0] == "known" and kf[1] == KNOWN_K1 for kf in vlib.known_findings("C05")):
+                                # (the class was repaired by /repo commit 764f777 and is no longer
+                                # listed as known: a reappearance is reported as a violation below)
                                 chk.known(KNOWN_K1, "a real lsmtk GC whose inputs skip an overlapping file of a level in between dropped a tombstone while a value it shadows survived outside: deleted key reads again (e.g. %s)" % cl[:40])
                                 stats["lsm_k1_hits"] += 1
                             else:
